@@ -442,7 +442,10 @@ type verdict struct {
 	reasons []string
 }
 
-func (v *verdict) fail(f string, a ...any) { v.ok = false; v.reasons = append(v.reasons, fmt.Sprintf(f, a...)) }
+func (v *verdict) fail(f string, a ...any) {
+	v.ok = false
+	v.reasons = append(v.reasons, fmt.Sprintf(f, a...))
+}
 
 // bitmapSigners decodes the signer positions a bitmap claims for a committee of n members
 // (ok=false: wrong length). Bits at positions >= n are returned separately.
